@@ -56,4 +56,11 @@ def first_diff(a, b, path="") -> str:
             if d:
                 return d
         return ""
-    return "" if a == b else f"{path}: {a!r} vs {b!r}"
+    if a == b:
+        return ""
+    if isinstance(a, str) and len(a) + len(b) > 300:
+        # long texts: show the neighbourhood of the first difference
+        i = next((k for k, (x, y) in enumerate(zip(a, b)) if x != y), min(len(a), len(b)))
+        lo = max(0, i - 120)
+        return f"{path}: texts of {len(a)} / {len(b)} characters differ at index {i}: ...{a[lo:i + 120]!r} vs ...{b[lo:i + 120]!r}"
+    return f"{path}: {a!r} vs {b!r}"
